@@ -312,6 +312,7 @@ def main(argv):
         opts = {'procs': a.procs, 'z3_ms': 10000 if a.tier == 'quick' else 60000,
                 'cvc5_ms': 10000 if a.tier == 'quick' else 60000, 'argnames': argnames_fn(a.repo)}
         opts['skip_kinds'] = P.get('skip_obligation_kinds')
+        opts['func_budget_s'] = 1500 if a.tier == 'quick' else 6000
         kf = D.load_known_findings()
         findings = kf.get('findings', [])
         for qual in P.get('functions', []):
